@@ -12,8 +12,9 @@
    searched innermost first exactly like Scope.get/localGet/set walk Vars and then parents.  The height is the
    number of cells the frame had when the scope was formed: the reference evaluator only sees that prefix (lexical
    scoping), the Go code sees the whole map.  (Before the repairs C01-12/13 a closure made while a dolist / dotimes /
-   do* scope was still being filled later saw the cells added afterwards; now the only frame that grows after a scope
-   over it was formed is the frame Lambda.Call fills with the defaults of &optional parameters.)  No definition
+   do* scope was still being filled later saw the cells added afterwards, and until the repair of the binder a closure
+   made by a default form saw the parameters bound after it; now every frame is complete when the first scope over it
+   is formed.)  No definition
    in this file is mode-dependent except through the small functions [store_red] and [locate_m]: they are
    the complete list of places where M and S differ.
 
@@ -396,20 +397,20 @@ Fixpoint ev_setq (st : state) (sc : scope) (ps : list (string * expr)) (last : v
       bind (assign st1 sc x a) (fun _ st2 => ev_setq st2 sc ps' a)))      (* setq returns what it stored *)
   end.
 
-(* the &optional parameters that got no argument, in order: the default form is evaluated in the scope being built -
-   it sees the parameters bound so far (Go: ONE scope, so a closure made by a default form later sees the parameters
-   bound after it; the language: only those before) - and the parameter is bound at once (ss.Let stores the object,
-   Values included, like let).  A parameter whose name is already bound in the new scope keeps its value. *)
-Fixpoint ev_defaults (st : state) (sc : scope) (f : nat) (os : list (string * expr)) : res unit :=
+(* the &optional parameters that got no argument, in order: the default form is evaluated in the scope built so far -
+   it sees the parameters before it - and the parameter is bound in a NEW scope below it (after the repair of the
+   binder: one scope per such parameter, like let*, so a closure made by a default form never sees the parameters
+   that follow; cur.Let stores the object, Values included, like let).  [bnd]: the names bound so far in the scopes of
+   this call; a parameter whose name is among them keeps its value (bound(name) in the Go code).  The result is the
+   innermost scope, in which the body runs. *)
+Fixpoint ev_defaults (st : state) (sc : scope) (bnd : list string) (os : list (string * expr)) : res scope :=
   match os with
-  | [] => (Ok tt, st)
+  | [] => (Ok sc, st)
   | (x, e) :: os' =>
-      match fr_index (get_frame st f) x with
-      | Some _ => ev_defaults st sc f os'
-      | None =>
-          bind (ev st ((f, List.length (get_frame st f)) :: sc) e) (fun v st1 =>
-          bindo (store_red m v) st1 (fun a => ev_defaults (bind_in st1 f x a) sc f os'))
-      end
+      if existsb (String.eqb x) bnd then ev_defaults st sc bnd os'
+      else bind (ev st sc e) (fun v st1 =>
+           bindo (store_red m v) st1 (fun a =>
+           let '(f, st2) := alloc st1 [(x, a)] in ev_defaults st2 ((f, 1) :: sc) (x :: bnd) os'))
   end.
 (* Lambda.Call + BoundCall; Caller.Call of a built-in.  Too many and (since the repair of the binder) too few
    arguments are errors; the arguments are bound to the required and then to the &optional parameters. *)
@@ -423,8 +424,8 @@ Definition apply_fn (st : state) (c : callable) (args : list val) : result :=
            let '(f, st1) := alloc st fr in
            match drop os (List.length args - List.length ps) with
            | [] => ev_seq st1 ((f, List.length fr) :: csc) body VNil
-           | ds => bind (ev_defaults st1 csc f ds) (fun _ st2 =>
-                   ev_seq st2 ((f, List.length (get_frame st2 f)) :: csc) body VNil)
+           | ds => bind (ev_defaults st1 ((f, List.length fr) :: csc) (map fst fr) ds) (fun sc1 st2 =>
+                   ev_seq st2 sc1 body VNil)
            end
   end.
 Fixpoint ev_map (st : state) (c : callable) (rows : list (list val)) : res (list val) :=
